@@ -1,3 +1,5 @@
+//go:build verif_c18
+
 package main
 
 // C18 — settings read back as set, and persist.
